@@ -30,6 +30,9 @@
 //! back.k.R        move ref R of namespace k back to its first parent (a pure rewind of a data ref)
 //! mark.k.m        remember the current sigrefs tip of k on this side under the name m (for `refsat=k:m`)
 //! delcanon        delete the canonical (non-namespaced) refs/rad/id
+//! worker          (S only; scope=all blocked=- refsat=- required) ALSO run the scenario one level up: two real
+//!                 radicle-node nodes, the fetcher calling worker::fetch::Handle::fetch; its outcome and whether a
+//!                 repository directory exists in the fetcher's storage afterwards are appended to the output
 //! advdup.k.m      (S only) the server lists k's rad/sigrefs a second time, right after its own line, pointing at mark m
 //! revorder        (S only) the server lists references in REVERSE name order in every ls-refs response
 //! ```
@@ -296,6 +299,8 @@ pub enum Verb {
     Back(usize, String),
     Mark(usize, String),
     DelCanon,
+    /// Also run the scenario at the node level (worker `Handle::fetch` through real nodes).
+    Worker,
     /// The serving side lists references in reverse name order (a hand-written server may).
     RevOrder,
     /// The serving side lists `(k, rad/sigrefs)` a second time, pointing at mark `m`.
@@ -417,6 +422,7 @@ impl Scenario {
                     ("back", 4) => Verb::Back(k(2)?, r(3)?),
                     ("mark", 4) => Verb::Mark(k(2)?, f[3].to_string()),
                     ("delcanon", 2) => Verb::DelCanon,
+                    ("worker", 2) if side == Side::S => Verb::Worker,
                     ("revorder", 2) if side == Side::S => Verb::RevOrder,
                     ("advdup", 4) if side == Side::S => Verb::AdvDup(k(2)?, f[3].to_string()),
                     _ => return None,
@@ -448,6 +454,37 @@ pub struct Lab {
     pub keys: Vec<PublicKey>,
     bases: HashMap<String, Base>,
     seq: u64,
+    /// Runs a scenario one level up, through real `radicle-node` nodes (installed by harness/c02, which
+    /// links `radicle-node`); see `WorkerJob`.
+    pub worker: Option<Box<dyn Fn(&WorkerJob) -> Result<WorkerObs, String> + Send + Sync>>,
+}
+
+/// A scenario to be run at the node level (`radicle_node::worker::fetch::Handle::fetch`): the serving
+/// repository, and the fetcher's repository (`None` for a clone), as prepared by the laboratory.
+pub struct WorkerJob<'a> {
+    pub rid: RepoId,
+    pub server_repo: &'a Path,
+    pub local_repo: Option<&'a Path>,
+}
+
+/// What was observed in the fetching node's storage after the node-level fetch.
+#[derive(Debug, Clone)]
+pub struct WorkerObs {
+    /// `FetchResult::Success` at the node API
+    pub success: bool,
+    /// the repository directory exists in storage afterwards
+    pub dir: bool,
+    /// `storage.repository(rid)` opens
+    pub opens: bool,
+    /// `storage.contains(rid)`: `Ok(true)`, `Ok(false)` or an error
+    pub contains: String,
+    /// pull: the reference listing is the same as before
+    pub refs_unchanged: bool,
+    pub detail: String,
+}
+
+pub fn copy_tree(from: &Path, to: &Path) -> io::Result<()> {
+    copy_dir(from, to)
 }
 
 fn copy_dir(from: &Path, to: &Path) -> io::Result<()> {
@@ -483,7 +520,7 @@ impl Lab {
             (0..N_KEYS).map(|i| Device::from(MockSigner::from_seed([0xA0 + i as u8; 32]))).collect();
         devs.sort_by_key(|d| *d.public_key());
         let keys = devs.iter().map(|d| *d.public_key()).collect();
-        Lab { tmp: tempfile::tempdir().expect("tempdir"), devs, keys, bases: HashMap::new(), seq: 0 }
+        Lab { tmp: tempfile::tempdir().expect("tempdir"), devs, keys, bases: HashMap::new(), seq: 0, worker: None }
     }
 
     fn key_index(&self, k: &PublicKey) -> Option<usize> {
@@ -722,6 +759,7 @@ impl Exec<'_> {
             Verb::DelCanon => {
                 st.raw.find_reference(RAD_ID)?.delete()?;
             }
+            Verb::Worker => {}
             Verb::RevOrder => {}
             Verb::AdvDup(k, m) => {
                 let oid = *self.marks.get(m).ok_or_else(|| format!("unknown mark {m}"))?;
@@ -774,6 +812,8 @@ pub struct World {
     a_rev: bool,
     /// `(key, oid)`: `rad/sigrefs` of `key` is listed a second time with this oid
     a_dups: Vec<(usize, git2::Oid)>,
+    /// the scenario is also run at the node level
+    worker: bool,
     /// `(key, sigrefs commit)` ↦ what an independent reading of the commit gives (`None` = unloadable).
     blobs: BTreeMap<(usize, usize), Option<BlobInfo>>,
     anc: BTreeMap<(usize, usize), char>,
@@ -878,7 +918,7 @@ impl World {
             self.anc.iter().map(|((a, b), c)| format!("{a}>{b}:{c}")).collect::<Vec<_>>().join(",")
         };
         format!(
-            "nid={} nsig={} rad={} ldoc={} adoc={} local={} clone={} scope={} blocked={} refsat={} L={} A={} B={} ANC={}",
+            "nid={} nsig={} rad={} ldoc={} adoc={} local={} clone={} scope={} blocked={} refsat={} L={} A={} B={} ANC={} worker={}",
             self.name_ix(RAD_ID),
             self.name_ix(SIGREFS),
             Self::list(&rad),
@@ -896,6 +936,7 @@ impl World {
             self.show_refdb_ordered(&self.a, self.a_rev),
             blobs,
             anc,
+            self.worker as u8,
         )
     }
 }
@@ -1132,6 +1173,7 @@ impl Lab {
             a: arefs.clone(),
             a_rev: sc.ops.iter().any(|(_, v)| matches!(v, Verb::RevOrder)),
             a_dups: ex.dups.clone(),
+            worker: sc.ops.iter().any(|(_, v)| matches!(v, Verb::Worker)),
             blobs: BTreeMap::new(),
             anc: BTreeMap::new(),
         };
@@ -1224,6 +1266,16 @@ impl Lab {
         let blocked = BlockList::from_iter(sc.blocked.iter().map(|k| lab.keys[*k]));
         let refs_at: Option<Vec<RefsAt>> =
             refsat.as_ref().map(|v| v.iter().map(|(k, o)| RefsAt { remote: lab.keys[*k], at: (*o).into() }).collect());
+        let worker_obs: Option<WorkerObs> = if w.worker {
+            if sc.scope.is_some() || !sc.blocked.is_empty() || sc.refsat.is_some() || w.a_rev || !w.a_dups.is_empty() {
+                return Err("the node-level run supports scope=all blocked=- refsat=- and the plain transport only".into());
+            }
+            let run = lab.worker.as_ref().ok_or("this harness binary cannot run scenarios at the node level")?;
+            let job = WorkerJob { rid, server_repo: &s_path, local_repo: if sc.clone { None } else { Some(&l_path) } };
+            Some(run(&job)?)
+        } else {
+            None
+        };
         let result = {
             let extra = w.a_dups.iter().map(|(k, o)| (ns_ref(&lab.keys[*k], SIGREFS), *o)).collect();
             let conn = UploadPack::spawn(&s_path, w.a_rev, extra)?;
@@ -1258,7 +1310,10 @@ impl Lab {
                 ("success", format!(" r={}", World::list(&rs)))
             }
         };
-        let output = format!("{class}{detail} L={}", w.show_refdb(&after));
+        let mut output = format!("{class}{detail} L={}", w.show_refdb(&after));
+        if let Some(o) = &worker_obs {
+            output.push_str(&format!(" ; worker={} dir={}", if o.success { "success" } else { "failed" }, o.dir as u8));
+        }
         let mut out = Outcome::new(output);
         tags.push(format!("outcome-{class}"));
         tags.push(if sc.clone { "mode-clone" } else { "mode-pull" }.to_string());
@@ -1404,6 +1459,19 @@ impl Lab {
                         }
                     }
                 }
+            }
+        }
+        // One level up: a fetch that does not succeed must leave the node's storage as it was.
+        if let Some(o) = &worker_obs {
+            tags.push(format!("worker-{}-{}-dir{}-contains-{}", if sc.clone { "clone" } else { "pull" }, if o.success { "success" } else { "failed" }, o.dir as u8, o.contains));
+            if !o.success && sc.clone && o.dir {
+                viol.push((
+                    "failed-clone-leaves-repository".into(),
+                    format!("node-level clone failed ({}) but a repository directory was left in storage: opens={} contains={}", o.detail, o.opens, o.contains),
+                ));
+            }
+            if !o.success && !sc.clone && !o.refs_unchanged {
+                viol.push(("failed-pull-changed-storage".into(), format!("node-level pull failed ({}) but the references changed", o.detail)));
             }
         }
         // A panic of the real fetch is always a violation (both properties): a remote must not be able to
